@@ -7,3 +7,38 @@ def ty(x):
     if isinstance(x, str):
         raise ValueError("zq1zq string argument %s" % x)
     return "%s:%r" % (type(x).__name__, x)
+
+
+EXECS = []
+
+
+@memento_function(cluster="cp", version="1")
+def child(x, factor=10, offset=0):
+    EXECS.append(("child", x, factor, offset))
+    if x % 7 == 3:
+        raise ValueError("zq1zq bad element %d" % x)
+    return x * factor + offset
+
+
+def _show(r):
+    return ("exc:" + type(r).__name__) if isinstance(r, BaseException) else r
+
+
+@memento_function(cluster="cp", version="1")
+def caller_batch(xs, tag):
+    try:
+        rs = child.call_batch([{"x": x} for x in xs], raise_first_exception=False)
+    except RuntimeError as e:            # further calls prevented: the whole batch is refused
+        rs = [e for _ in xs]
+    return [_show(r) for r in rs]
+
+
+@memento_function(cluster="cp", version="1")
+def caller_single(xs, tag):
+    out = []
+    for x in xs:
+        try:
+            out.append(child(x))
+        except Exception as e:
+            out.append(_show(e))
+    return out
